@@ -15,7 +15,8 @@ import sys, os, io, json, threading, hashlib, contextlib, time
 
 LIB = os.path.join(os.environ.get('PYTHONPATH', '/repo').split(os.pathsep)[0], 'musicxml') + os.sep
 LAZY = {'get_xsd_attributes', '_fill_xsd_tree', 'get_xsd_tree', 'elements', '_populate_permitted', '_populate_forced_permitted',
-        '_populate_pattern', 'get_xsd_indicator', 'sequence', 'type_', 'name', 'is_required'}
+        '_populate_pattern', 'get_xsd_indicator', 'sequence', 'type_', 'name', 'is_required',
+        '_check_attribute'}      # attribute handling: the shared tables are read here
 
 
 def sha(s):
